@@ -67,10 +67,16 @@ func (s *TFIDFSearcher) buildIndex() {
 		}
 	}
 
-	// Step 2: Build vocabulary index
+	// Step 2: Build vocabulary index (in word order: map iteration order is random)
 	s.vocabulary = make(map[string]int)
 	vocabIndex := 0
-	for word, docCount := range wordCounts {
+	vocabWords := make([]string, 0, len(wordCounts))
+	for word := range wordCounts {
+		vocabWords = append(vocabWords, word)
+	}
+	sort.Strings(vocabWords)
+	for _, word := range vocabWords {
+		docCount := wordCounts[word]
 		// Include unique terms (docCount >= 1) as they are highly discriminating
 		// Upper bound at 80% to exclude only very common terms
 		maxDocs := len(s.commands) * 8 / 10
@@ -107,8 +113,8 @@ func (s *TFIDFSearcher) buildIndex() {
 		s.commandTF[i] = make(map[int]float64)
 		var norm float64
 
-		for termIdx, count := range termCounts {
-			tf := float64(count) / float64(len(words))
+		for _, termIdx := range sortedKeys(termCounts) {
+			tf := float64(termCounts[termIdx]) / float64(len(words))
 			tfidf := tf * s.idf[termIdx]
 			s.commandTF[i][termIdx] = tfidf
 			norm += tfidf * tfidf
@@ -164,8 +170,8 @@ func (s *TFIDFSearcher) Search(query string, limit int) []TFIDFResult {
 
 	// Calculate query TF-IDF
 	var queryNorm float64
-	for termIdx, count := range queryTermCounts {
-		tf := float64(count) / float64(len(queryTokens))
+	for _, termIdx := range sortedKeys(queryTermCounts) {
+		tf := float64(queryTermCounts[termIdx]) / float64(len(queryTokens))
 		tfidf := tf * s.idf[termIdx]
 		queryVector[termIdx] = tfidf
 		queryNorm += tfidf * tfidf
@@ -190,8 +196,8 @@ func (s *TFIDFSearcher) Search(query string, limit int) []TFIDFResult {
 		}
 	}
 
-	// Sort by similarity (descending)
-	sort.Slice(results, func(i, j int) bool {
+	// Sort by similarity (descending; equal similarities keep command order)
+	sort.SliceStable(results, func(i, j int) bool {
 		return results[i].Similarity > results[j].Similarity
 	})
 
@@ -211,13 +217,24 @@ func (s *TFIDFSearcher) cosineSimilarity(queryVector map[int]float64, queryNorm 
 	}
 
 	var dotProduct float64
-	for termIdx, queryTFIDF := range queryVector {
+	for _, termIdx := range sortedKeys(queryVector) {
 		if docTFIDF, exists := docVector[termIdx]; exists {
-			dotProduct += queryTFIDF * docTFIDF
+			dotProduct += queryVector[termIdx] * docTFIDF
 		}
 	}
 
 	return dotProduct / (queryNorm * docNorm)
+}
+
+// sortedKeys returns the keys of a term-indexed map in ascending order, so that
+// floating-point sums over it do not depend on map iteration order.
+func sortedKeys[V any](m map[int]V) []int {
+	keys := make([]int, 0, len(m))
+	for k := range m {
+		keys = append(keys, k)
+	}
+	sort.Ints(keys)
+	return keys
 }
 
 // GetVocabularyStats returns statistics about the built vocabulary
